@@ -81,13 +81,14 @@ theorem step_reject (σ : Uni) (d : DataW) (rest : List DataW) (b : Bool) (hf : 
 /-- **whatever is in flight towards the receiver can be delivered**, for every
     choice the receiver makes about NACKs; nothing is un-sent or un-logged by it -/
 theorem drain_fwd (k : Nat) : ∀ (σ : Uni) (fl : List Bool), Inv σ → σ.fwd.length = k → fl.length = k →
-    ∃ σ', σ.run? (fl.map .fwdDeliver) = some σ' ∧ σ'.fwd = [] ∧ σ'.T = σ.T ∧ σ'.log = σ.log ∧ σ'.n = σ.n := by
+    ∃ σ', σ.run? (fl.map .fwdDeliver) = some σ' ∧ σ'.fwd = [] ∧ σ'.T = σ.T ∧ σ'.log = σ.log ∧ σ'.n = σ.n ∧
+      σ'.bwd.length ≤ σ.bwd.length + k := by
   induction k with
   | zero =>
     intro σ fl _ hk hfl
     have : fl = [] := List.length_eq_zero_iff.mp hfl
     subst this
-    exact ⟨σ, by simp [Uni.run?], List.length_eq_zero_iff.mp hk, rfl, rfl, rfl⟩
+    exact ⟨σ, by simp [Uni.run?], List.length_eq_zero_iff.mp hk, rfl, rfl, rfl, Nat.le_refl _⟩
   | succ k ih =>
     intro σ fl h hk hfl
     match hf : σ.fwd, hfe : fl with
@@ -98,11 +99,16 @@ theorem drain_fwd (k : Nat) : ∀ (σ : Uni) (fl : List Bool), Inv σ → σ.fwd
       have hfl' : fl'.length = k := by simpa using hfl
       by_cases ha : d.seq = σ.recvSeq
       · have hs := step_accept σ d rest b hf ha
-        obtain ⟨σ', hr, h1, h2, h3, h4⟩ := ih _ fl' (inv_step h _ hs) hlen hfl'
-        exact ⟨σ', by simp only [List.map_cons, Uni.run?, hs]; exact hr, h1, h2, h3, h4⟩
+        obtain ⟨σ', hr, h1, h2, h3, h4, h5⟩ := ih _ fl' (inv_step h _ hs) hlen hfl'
+        refine ⟨σ', by simp only [List.map_cons, Uni.run?, hs]; exact hr, h1, h2, h3, h4, ?_⟩
+        have : (acceptSt σ d rest).bwd.length = σ.bwd.length + 1 := by simp [acceptSt]
+        omega
       · have hs := step_reject σ d rest b hf ha
-        obtain ⟨σ', hr, h1, h2, h3, h4⟩ := ih _ fl' (inv_step h _ hs) hlen hfl'
-        exact ⟨σ', by simp only [List.map_cons, Uni.run?, hs]; exact hr, h1, h2, h3, h4⟩
+        obtain ⟨σ', hr, h1, h2, h3, h4, h5⟩ := ih _ fl' (inv_step h _ hs) hlen hfl'
+        refine ⟨σ', by simp only [List.map_cons, Uni.run?, hs]; exact hr, h1, h2, h3, h4, ?_⟩
+        have : (rejectSt σ rest b).bwd.length ≤ σ.bwd.length + 1 := by
+          cases b <;> simp [rejectSt]
+        omega
 
 /-! ### the responses -/
 
@@ -146,11 +152,13 @@ theorem drain_bwd (m : Nat) : ∀ (σ : Uni), Inv σ → σ.bwd.length = m →
     for every reachable state and every NACK choice of the receiver -/
 theorem settle (σ : Uni) (h : Inv σ) (fl : List Bool) (hfl : fl.length = σ.fwd.length) :
     ∃ m σ', σ.run? (fl.map .fwdDeliver ++ List.replicate m .bwdDeliver) = some σ' ∧
-      σ'.fwd = [] ∧ σ'.bwd = [] ∧ σ'.T = σ.T ∧ σ'.log = σ.log ∧ σ'.n = σ.n ∧ Inv σ' := by
-  obtain ⟨σ1, hr1, hf1, hT1, hl1, hn1⟩ := drain_fwd σ.fwd.length σ fl h rfl hfl
+      σ'.fwd = [] ∧ σ'.bwd = [] ∧ σ'.T = σ.T ∧ σ'.log = σ.log ∧ σ'.n = σ.n ∧ Inv σ' ∧
+      m ≤ σ.bwd.length + σ.fwd.length := by
+  obtain ⟨σ1, hr1, hf1, hT1, hl1, hn1, hlen1⟩ := drain_fwd σ.fwd.length σ fl h rfl hfl
   have hi1 := inv_run h _ hr1
   obtain ⟨σ2, hr2, hb2, _, _, hT2, hl2, hf2, _, hn2⟩ := drain_bwd σ1.bwd.length σ1 hi1 rfl
-  refine ⟨σ1.bwd.length, σ2, ?_, by rw [hf2, hf1], hb2, by rw [hT2, hT1], by rw [hl2, hl1], by rw [hn2, hn1], inv_run hi1 _ hr2⟩
+  refine ⟨σ1.bwd.length, σ2, ?_, by rw [hf2, hf1], hb2, by rw [hT2, hT1], by rw [hl2, hl1], by rw [hn2, hn1],
+    inv_run hi1 _ hr2, hlen1⟩
   rw [run_append, hr1]; exact hr2
 
 /-! ### the resend round -/
@@ -180,14 +188,14 @@ theorem deliver_range (k : Nat) : ∀ (a : Nat) (σ : Uni) (fl : List Bool), Inv
     σ.fwd.map (·.idx) = List.range' a k → fl.length = k → a ≤ σ.R → σ.R ≤ a + k →
     ∃ σ', σ.run? (fl.map .fwdDeliver) = some σ' ∧ σ'.fwd = [] ∧ σ'.R = a + k ∧ σ'.T = σ.T ∧
       σ'.B = σ.B ∧ σ'.log = σ.log ∧ σ'.n = σ.n ∧
-      ((Synced σ ∨ σ.R < a + k ∨ fl.head? = some true) → Synced σ') := by
+      ((Synced σ ∨ σ.R < a + k ∨ fl.head? = some true) → Synced σ') ∧ σ'.bwd.length ≤ σ.bwd.length + k := by
   induction k with
   | zero =>
     intro a σ fl _ hf hfl h1 h2
     have : fl = [] := List.length_eq_zero_iff.mp hfl
     subst this
     have hf' : σ.fwd = [] := by simpa using hf
-    refine ⟨σ, by simp [Uni.run?], hf', by omega, rfl, rfl, rfl, rfl, ?_⟩
+    refine ⟨σ, by simp [Uni.run?], hf', by omega, rfl, rfl, rfl, rfl, ?_, Nat.le_refl _⟩
     intro hh
     rcases hh with hh | hh | hh
     · exact hh
@@ -209,9 +217,10 @@ theorem deliver_range (k : Nat) : ∀ (a : Nat) (σ : Uni) (fl : List Bool), Inv
       · -- the next packet: accepted, acknowledged
         have hseq : d.seq = σ.recvSeq := hacc.mpr (by omega)
         have hs := step_accept σ d rest b hfw hseq
-        obtain ⟨σ', hr, g1, g2, g3, g4, g5, g6, g7⟩ :=
+        obtain ⟨σ', hr, g1, g2, g3, g4, g5, g6, g7, g8⟩ :=
           ih (a + 1) _ fl' (inv_step h _ hs) hrest hfl' (by show a + 1 ≤ σ.R + 1; omega) (by show σ.R + 1 ≤ a + 1 + k; omega)
-        refine ⟨σ', by simp only [List.map_cons, Uni.run?, hs]; exact hr, g1, by rw [g2]; omega, g3, g4, g5, g6, ?_⟩
+        have hbl : (acceptSt σ d rest).bwd.length = σ.bwd.length + 1 := by simp [acceptSt]
+        refine ⟨σ', by simp only [List.map_cons, Uni.run?, hs]; exact hr, g1, by rw [g2]; omega, g3, g4, g5, g6, ?_, by omega⟩
         intro _
         apply g7
         left
@@ -219,9 +228,10 @@ theorem deliver_range (k : Nat) : ∀ (a : Nat) (σ : Uni) (fl : List Bool), Inv
       · -- an older copy: rejected, possibly NACKed
         have hseq : d.seq ≠ σ.recvSeq := fun he => ha (by have := hacc.mp he; omega)
         have hs := step_reject σ d rest b hfw hseq
-        obtain ⟨σ', hr, g1, g2, g3, g4, g5, g6, g7⟩ :=
+        obtain ⟨σ', hr, g1, g2, g3, g4, g5, g6, g7, g8⟩ :=
           ih (a + 1) _ fl' (inv_step h _ hs) hrest hfl' (by show a + 1 ≤ σ.R; omega) (by show σ.R ≤ a + 1 + k; omega)
-        refine ⟨σ', by simp only [List.map_cons, Uni.run?, hs]; exact hr, g1, by rw [g2]; omega, g3, g4, g5, g6, ?_⟩
+        have hbl : (rejectSt σ rest b).bwd.length ≤ σ.bwd.length + 1 := by cases b <;> simp [rejectSt]
+        refine ⟨σ', by simp only [List.map_cons, Uni.run?, hs]; exact hr, g1, by rw [g2]; omega, g3, g4, g5, g6, ?_, by omega⟩
         intro hh
         apply g7
         rcases hh with hh | hh | hh
@@ -252,13 +262,13 @@ theorem resend_round_completes (σ : Uni) (h : Inv σ) (hf : σ.fwd = []) (hb : 
     ∃ m σ', σ.run? ((List.range' σ.B (σ.T - σ.B)).map .retransmit ++ fl.map .fwdDeliver ++
                     List.replicate m .bwdDeliver) = some σ' ∧
       σ'.out = σ.accepted ∧ σ'.q.size = 0 ∧ σ'.fwd = [] ∧ σ'.bwd = [] ∧
-      σ'.B = σ.T ∧ σ'.R = σ.T ∧ σ'.T = σ.T ∧ σ'.log = σ.log := by
+      σ'.B = σ.T ∧ σ'.R = σ.T ∧ σ'.T = σ.T ∧ σ'.log = σ.log ∧ m ≤ σ.T - σ.B := by
   have hBR := h.BR; have hRT := h.RT
   obtain ⟨σ1, hr1, e1, hR1, hT1, hB1, hl1, hb1, hn1⟩ :=
     retransmit_range (σ.T - σ.B) σ.B σ h (Nat.le_refl _) (by omega)
   have hi1 := inv_run h _ hr1
   rw [hf] at e1; simp only [List.map_nil, List.nil_append] at e1
-  obtain ⟨σ2, hr2, hf2, hR2, hT2, hB2, hl2, hn2, hsync⟩ :=
+  obtain ⟨σ2, hr2, hf2, hR2, hT2, hB2, hl2, hn2, hsync, hlen2⟩ :=
     deliver_range (σ.T - σ.B) σ.B σ1 fl hi1 e1 hfl (by omega) (by omega)
   have hi2 := inv_run hi1 _ hr2
   have hs1 : Synced σ1 ∨ σ1.R < σ.B + (σ.T - σ.B) ∨ fl.head? = some true := by
@@ -274,7 +284,7 @@ theorem resend_round_completes (σ : Uni) (h : Inv σ) (hf : σ.fwd = []) (hb : 
   have hT3' : σ3.T = σ.T := by rw [hT3, hT2, hT1]
   have hB3' : σ3.B = σ.T := by rw [hB3, hsy2, hR2]; omega
   have hl3' : σ3.log = σ.log := by rw [hl3, hl2, hl1]
-  refine ⟨σ2.bwd.length, σ3, ?_, ?_, ?_, by rw [hf3, hf2], hb3, hB3', hR3', hT3', hl3'⟩
+  refine ⟨σ2.bwd.length, σ3, ?_, ?_, ?_, by rw [hf3, hf2], hb3, hB3', hR3', hT3', hl3', by rw [hb1, hb] at hlen2; simpa using hlen2⟩
   · rw [run_append, run_append, hr1]; simp only [Option.bind_some, hr2]; exact hr3
   · rw [hi3.out_eq, hR3', hl3', Uni.accepted, List.take_of_length_le (by rw [h.log_len]; omega)]
   · rw [size_eq hi3, hB3', hT3']; omega
@@ -293,25 +303,46 @@ theorem round_reliable (B k m : Nat) (fl : List Bool) :
     schedule of nothing but retransmissions and in-order deliveries (no new
     sends, no drops, no duplicates) after which every message Send accepted has
     been handed to the peer's Recv, exactly once and in order, and the send
-    queue is empty. -/
+    queue is empty.  The schedule is short: at most two steps per packet in
+    flight forward, one per response in flight, and three per window slot — so
+    with a bound on the time one step takes (a resend timeout for the round to
+    start, a latency per delivery) recovery takes bounded time. -/
 theorem C06_recovery (n : Nat) (hn : 0 < n) (hn254 : n ≤ 254) (σ : Uni) (hr : Reachable n σ) :
     ∃ ls σ', σ.run? ls = some σ' ∧ (∀ l ∈ ls, reliable l = true) ∧
-      σ'.out = σ.accepted ∧ σ'.q.size = 0 ∧ σ'.fwd = [] ∧ σ'.bwd = [] ∧ σ'.log = σ.log := by
+      σ'.out = σ.accepted ∧ σ'.q.size = 0 ∧ σ'.fwd = [] ∧ σ'.bwd = [] ∧ σ'.log = σ.log ∧
+      ls.length ≤ 2 * σ.fwd.length + σ.bwd.length + 3 * σ.n := by
   have h := inv_reachable hn hn254 hr
-  obtain ⟨m1, σ1, hr1, hf1, hb1, hT1, hl1, _, hi1⟩ :=
+  obtain ⟨m1, σ1, hr1, hf1, hb1, hT1, hl1, hn1, hi1, hm1⟩ :=
     settle σ h (List.replicate σ.fwd.length true) (by simp)
-  obtain ⟨m2, σ2, hr2, ho2, hq2, hf2, hb2, _, _, _, hl2⟩ :=
+  obtain ⟨m2, σ2, hr2, ho2, hq2, hf2, hb2, _, _, _, hl2, hm2⟩ :=
     resend_round_completes σ1 hi1 hf1 hb1 (List.replicate (σ1.T - σ1.B) true) (by simp)
       (by intro _ hlt; cases hk : σ1.T - σ1.B with
           | zero => omega
           | succ k => simp [List.replicate_succ])
-  refine ⟨_ ++ _, σ2, by rw [run_append, hr1]; exact hr2, ?_, ?_, hq2, hf2, hb2, by rw [hl2, hl1]⟩
+  refine ⟨_ ++ _, σ2, by rw [run_append, hr1]; exact hr2, ?_, ?_, hq2, hf2, hb2, by rw [hl2, hl1], ?_⟩
   · intro l hl
     rcases List.mem_append.mp hl with hl | hl
     · simp only [List.mem_append, List.mem_map, List.mem_replicate] at hl
       rcases hl with ⟨_, _, rfl⟩ | ⟨_, rfl⟩ <;> rfl
     · exact round_reliable _ _ _ _ l hl
   · rw [ho2, Uni.accepted, Uni.accepted, hl1]
+  · have hw := hi1.win
+    simp only [List.length_append, List.length_map, List.length_replicate, List.length_range']
+    omega
+
+/-- **a blocked Send is released**: from every reachable state — in particular one
+    whose window is full, so that `Send` blocks — the same kind of schedule leads
+    to a state in which the send loop accepts the next message, whatever it is -/
+theorem C06_send_unblocks (n : Nat) (hn : 0 < n) (hn254 : n ≤ 254) (σ : Uni) (hr : Reachable n σ) :
+    ∃ ls σ', σ.run? ls = some σ' ∧ (∀ l ∈ ls, reliable l = true) ∧ ∀ p, (σ'.step? (.sendNew p)).isSome = true := by
+  have h := inv_reachable hn hn254 hr
+  obtain ⟨ls, σ', hrun, hrel, _, hq, _, _, _, _⟩ := C06_recovery n hn hn254 σ hr
+  have hi := inv_run h ls hrun
+  refine ⟨ls, σ', hrun, hrel, fun p => ?_⟩
+  have hpos := hi.n_pos
+  simp only [Uni.step?]
+  rw [if_pos (by omega), addPacket_eq hi]
+  rfl
 
 /-! non-vacuity: a stalled state (two packets sent, both lost) and its recovery -/
 def stalled : Option Uni :=
